@@ -12,6 +12,8 @@ import GV.Lib.IntervalPow
     powers below `maxBits` bits (m up to a few hundred for ordinary f):
                the threshold is computed by `findT` and accepted only if the proved checker
                `certOK` passes (GV.Props.C37.certOK_sound) → exact model and exact spec.
+    otherwise, if 1 − f is an exact m-th power (r/s)^m: the exact-root certificate `exactOK`
+               (T = ⌊U(s^n − r^n)/s^n⌋, proved: GV.Props.C37.exactOK_sound), for any m;
     otherwise: a certificate for `GV.Model.ThresholdCert.check` (exact rational arithmetic; bounds on
                ln 2 and ln r checked through the Taylor enclosure of exp; proved sound for every
                denominator, GV.Proofs.ThresholdCert.check_sound) is searched; if the checker accepts it
@@ -102,12 +104,19 @@ def threshold (i : Input) (impl : String) : Thr :=
         else { model := s!"interval-glue-disagrees[{iv.1},{iv.2}] cert={t}", spec := toString t }
       | none => { model := "cert-search-failed", spec := "*" }
     else
+    -- 1 − f an exact m-th power (the code's exact fast path): exact-root certificate, proved for any m
+    -- (GV.Props.C37.exactOK_sound / exact_output_correct)
+    match findExact a b n m U with
+    | some (_, _, t) => { model := toString t, spec := toString t, value := some t }
+    | none =>
     -- large denominator: a rational certificate accepted by the PROVED checker
     -- `GV.Model.ThresholdCert.check` (GV.Proofs.ThresholdCert.check_sound, GV.Props.C37.ratcert_output_correct)
     match GV.Lib.IntervalPow.certify a b n m U with
     | some (t, _) => { model := toString t, spec := toString t, value := some t }
     | none =>
-      -- no certificate (the value sits on an integer boundary at every precision tried):
+      -- no certificate: 1 − f is not an exact m-th power and U·(1 − (1−f)^σ) is closer to an integer than
+      -- 2^-(32·(log2 U + 128)) (never seen; needs a coefficient built next to a perfect power with
+      -- thousands of bits):
       -- proved enclosure (Stern–Brocot neighbours) + unproved interval evaluation
       let enc := enclosure a b n m U
       let insideEnc (t : Nat) : Bool := match enc with
@@ -139,6 +148,7 @@ def handleOp (op impl : String) : GV.Line.Out :=
       match guards i with
       | .general a b n m U =>
         if exactFeasible b m U then { model := "branch=certOK" }
+        else if (findExact a b n m U).isSome then { model := "branch=exactroot" }
         else match GV.Lib.IntervalPow.certify a b n m U with
           | some _ => { model := "branch=ratcert" }
           | none => { model := "branch=fallback" }
@@ -182,9 +192,11 @@ def handleOp (op impl : String) : GV.Line.Out :=
               { model := r, spec := r }
             | none => { model := "cert-search-failed" }
           else
-            let iv := match GV.Lib.IntervalPow.certify a b n m U with
-              | some (t, _) => (t, t)
-              | none => GV.Lib.IntervalPow.threshold a b n m U
+            let iv := match findExact a b n m U with
+              | some (_, _, t) => (t, t)
+              | none => match GV.Lib.IntervalPow.certify a b n m U with
+                | some (t, _) => (t, t)
+                | none => GV.Lib.IntervalPow.threshold a b n m U
             let v := beNat (if i.mode = 1 then vrf else leaderValue vrf)
             if v < iv.1 then { model := "1", spec := "1" }
             else if iv.2 ≤ v then { model := "0", spec := "0" }
